@@ -25,7 +25,12 @@ def correspondence(res, tier, rng):
     ncase = 6 if tier == "quick" else 40
     tl, pl, meta = [], [], []
     for i in range(ncase):
-        case = cases.physical_case(rng, tier, **({"d": 2, "n": 3} if i == 0 else {}))
+        # forced shapes (the rest is drawn): 0 = beyond the cut-off with a fractional additional
+        # correlation time; 1 = repeated coupling eigenvalue with unique=True; 3 = pulsed system;
+        # 5 = non-diagonal coupling with unique=True
+        forced = {0: {"d": 2, "n": 3}, 1: {"d": 3, "n": 2, "coupling_kind": "diag-degenerate"},
+                  5: {"d": 2, "n": 3, "coupling_kind": "nondiag"}}.get(i, {})
+        case = cases.physical_case(rng, tier, **forced)
         if i == 0:
             # beyond the cut-off with an additional correlation time that is neither zero nor a
             # multiple of dt: the back-integrated table keeps changing until step dkmax + 2
